@@ -13,6 +13,7 @@ for l in open(R + '/properties.jsonl'):
     props[p['id']] = p
 
 HINT = {
+    '8': None,
     '7': ("Assume the property is already checked very thoroughly: model-based random tests of the whole public API of this feature (all overloads and "
           "convenience wrappers, aliasing, self-assignment, reuse after close/clear/reset/failed operations, copies of configured objects), sweeps over every "
           "length across the implementation's internal buffer sizes, numeric extremes, combinations of settings, hostile input between valid uses, "
@@ -47,6 +48,8 @@ HINT = {
           "first and pick the least obvious place you can find; both changes must still satisfy every requirement above (unit tests pass, "
           "demonstration fails with / passes without)."),
 }
+
+HINT['8'] = HINT['7'].replace('planted 12', 'planted 14') + (" You have about 20 minutes: keep the changes small, and finish the deliverables even if only ONE change (A) is ready by then.")
 
 T = """You are helping to evaluate a test suite by planting realistic, subtle bugs ("seeded changes") in a C++ library. You work ONLY inside the git worktree {wt} (a checkout of the library aslze/asl: include/asl/*.h, src/*.cpp, tests/). Do not read or touch anything under /verif or /repo, and do not look for other people's tests or harnesses outside your worktree.
 
